@@ -502,6 +502,14 @@ def iter_next(ex, it):
         if it.kind == "map":
             x = iter_next(ex, it.inner)
             return None if x is None else ex.call_closure(it.clo, [x])
+        if it.kind == "zip":
+            x = iter_next(ex, it.inner)
+            if x is None:
+                return None
+            y = iter_next(ex, it.other)
+            if y is None:
+                return None
+            return Struct("tuple", [x, y])
         if it.kind == "enumerate":
             x = iter_next(ex, it.inner)
             if x is None:
@@ -575,6 +583,13 @@ def m_iter_next(ex, a, callee, canon):
 @model(r"^<.* as Iterator>::(map|flat_map|filter_map|filter)$")
 def m_iter_adapt(ex, a, callee, canon):
     return AdaptV(canon.rsplit("::", 1)[1], a[0], a[1])
+
+
+@model(r"^<.* as Iterator>::zip$")
+def m_zip(ex, a, callee, canon):
+    z = AdaptV("zip", a[0], None)
+    z.other = a[1]
+    return z
 
 
 @model(r"^<.* as Iterator>::enumerate$")
@@ -778,7 +793,13 @@ def val_eq(ex, x, y):
     if isinstance(x, Bool) and isinstance(y, Bool):
         return x.t == y.t
     if isinstance(x, (Bytes, Arr)) and isinstance(y, (Bytes, Arr)) and (isinstance(x, Bytes) or isinstance(y, Bytes) or (x.f and isinstance(x.f[0], Int))):
-        return ex.bytes_of(x) == ex.bytes_of(y)
+        sx, sy = ex.bytes_of(x), ex.bytes_of(y)
+        ix, iy = seq_units(sx), seq_units(sy)
+        if ix is not None and iy is not None:
+            if len(ix) != len(iy):
+                return z3.BoolVal(False)
+            return z3.And(*[p == q for p, q in zip(ix, iy)]) if ix else z3.BoolVal(True)
+        return sx == sy
     if isinstance(x, Enum) and isinstance(y, Enum):
         if x.variant != y.variant:
             return z3.BoolVal(False)
